@@ -17,6 +17,7 @@ from .. import encode, genpel, pelrun, tlc
 ID = 'C01'
 LEVEL = 'model_checking'
 TRACE = 'trace/Trace_Pel'
+PROCESS_EVERY = 4         # every fourth case decodes through the real tool as a real process (seams.PROC_VARIANTS)
 RULE = ('case = one well-formed PEL: a sequence of section kind classes emitted by TLC (exhaustive up to the bound) '
         'or seeded random (long PELs, all creator ids), filled with shapes and values, decoded by the real parsePEL; '
         'non-trivial = the PEL has at least two optional sections or a section with callouts; distinct = by bytes')
